@@ -123,9 +123,9 @@ func tierTimeout(tier string, override int) int {
 		return override
 	}
 	if tier == "thorough" {
-		return 60
+		return 90
 	}
-	return 10
+	return 30
 }
 
 func cmdCheck(repo, verif, prop, tier string, timeout int, verbose bool) int {
